@@ -333,6 +333,14 @@ let run_case (c : sexp) =
         (List.map (fun c -> match atom c with "none" -> None | x -> Some (nat_of_int (int_of_string x))) (lst calls)) in
     Printf.printf "SCHED %s %s\n" name
       (String.concat " " (List.map (function Ok b -> pb b | Err e -> err_name e) res))
+  | L [Atom "periodat"; Atom name; a; dates; stamps] ->
+    (* RunPeriod.__call__ on arbitrary timestamps (on or off the index) *)
+    (match algo_of a with
+     | ARunPeriod (k, f, e, l) ->
+       let ds = List.map zx (lst dates) in
+       Printf.printf "PERIODAT %s %s\n" name
+         (String.concat " " (List.map (fun s -> pb (f_run_period_at k f e l ds (zx s))) (lst stamps)))
+     | _ -> Printf.printf "PERIODAT %s err\n" name)
   | L [Atom "stackrun"; Atom name; n; algos] ->
     (match f_stack_runs (natx n) (List.map algo_of (lst algos)) with
      | Ok (log, rs) ->
